@@ -145,6 +145,7 @@ type Enc struct {
 	dynImpl         map[string]bool
 	qbound          []string // names of the quantifier variables whose body is being evaluated
 	dryCache        []dryCached
+	applyCells      map[string]*Val // captured-variable cells while a closure's contract is applied at a call site
 	recGhost        map[string]bool
 }
 
@@ -819,6 +820,25 @@ func (e *Enc) mergeVals(hint string, vs []*Val, conds []string) *Val {
 	}
 	if (first.Loc != nil || first.Clos != nil) && allSame {
 		return first
+	}
+	// different closures on different paths: keep the alternatives with their path conditions
+	allClos := true
+	for _, v := range vs {
+		if v.Clos == nil && len(v.Alts) == 0 {
+			allClos = false
+		}
+	}
+	if allClos {
+		out := &Val{T: first.T}
+		for i, v := range vs {
+			if v.Clos != nil {
+				out.Alts = append(out.Alts, ClosAlt{conds[i], v.Clos})
+			}
+			for _, a := range v.Alts {
+				out.Alts = append(out.Alts, ClosAlt{and(conds[i], a.Cond), a.Clos})
+			}
+		}
+		return out
 	}
 	out := &Val{T: first.T}
 	for i := range first.L {
